@@ -157,6 +157,8 @@ def make(cfg_in):
                  n_jobs=1)
         if cfg['kernel'] == 'real':
             s['threshold'] = symdata.choice(c, 'thr', cfg['thresholds'])
+            if callable(s['threshold']):
+                s['threshold'] = s['threshold'](c)
         elif measure == 'OVERLAP':
             s['threshold'] = c.int_var('thr', 1, k + 1)
         else:
@@ -245,7 +247,15 @@ def make(cfg_in):
             viols = oracle.check_join_output(s, w, res)
         for (p, clause, msg) in viols:
             if props is None or p in props:
-                raise Violation('%s/%s: %s' % (p, clause, msg), detail(p, clause, msg))
+                dd = detail(p, clause, msg)
+                if cfg['filter'] == 'SuffixFilter' and clause == 'complete' and cfg['kernel'] == 'real':
+                    sub = _suffix_subclass(Lt, Rt, w, measure, s['threshold'], tok)
+
+                    def dd(mdl, _d=detail(p, clause, msg), _sub=sub):
+                        d = _d(mdl)
+                        d['subclass'] = _sub
+                        return d
+                raise Violation('%s/%s: %s' % (p, clause, msg), dd)
         _COUNTER[0] += 1
         sample = None
         if _COUNTER[0] <= 2:
@@ -253,5 +263,90 @@ def make(cfg_in):
             sample = {'scenario': detail('-', '-', '-')(mdl)}
         return {'nontrivial': len(res.rows) > 0, 'tags': ['rows=%d' % len(res.rows)],
                 'sample': sample}
+
+    return h
+
+
+def _suffix_subclass(Lt, Rt, w, measure, threshold, tok):
+    """Classify a SuffixFilter.filter_tables miss: is there a pair with a shared token that lies in
+    one record's prefix and in the other record's suffix (the recorded known finding), under the
+    global order = numeric order of the tokens (cells are presorted)?"""
+    fu = repo.mod('filter.filter_utils')
+    for lr in Lt.rows:
+        for rr in Rt.rows:
+            lt, rt = w.tokset(lr[1]), w.tokset(rr[1])
+            if not lt or not rt:
+                continue
+            pl_l = fu.get_prefix_length(len(lt), measure, threshold, tok)
+            pl_r = fu.get_prefix_length(len(rt), measure, threshold, tok)
+            for i, a in enumerate(lt):
+                for j, b in enumerate(rt):
+                    if a == b and ((i < pl_l) != (j < pl_r)):
+                        return 'shared-token-in-prefix-of-one-suffix-of-other'
+    return 'other'
+
+
+def make_subset(cfg_in):
+    """C14: on the same tables, PositionFilter.filter_tables keeps a subset of what PrefixFilter and
+    SizeFilter keep (same parameters).  Kernel real (threshold grid) or stubbed (shared stubs)."""
+    cfg = dict(DEFAULTS)
+    cfg.update(cfg_in)
+
+    def h(c):
+        measure, k = cfg['measure'], cfg['k']
+        s = dict(entry='filter_split', measure=measure, kind='filter', comp_op='>=',
+                 allow_empty=symdata.choice(c, 'ae', cfg['allow_empty']), allow_missing=False,
+                 out_sim_score=False, l_key='id', r_key='id', l_attr='attr', r_attr='attr',
+                 l_out_attrs=None, r_out_attrs=None, l_out_prefix='l_', r_out_prefix='r_',
+                 tok_return_set=True, with_id=False, n_jobs=1)
+        if cfg['kernel'] == 'real':
+            s['threshold'] = symdata.choice(c, 'thr', cfg['thresholds'])
+            if callable(s['threshold']):
+                s['threshold'] = s['threshold'](c)
+        else:
+            s['threshold'] = c.float_var('thr', 0.0, 1.0, lo_open=True)
+        Lt = scenario.build_table(c, 'L', cfg['nl'], k, cfg['kmin'], False, False, False)
+        Rt = scenario.build_table(c, 'R', cfg['nr'], k, cfg['kmin'], False, False, False)
+        s['L'], s['R'] = scenario.table_dict(Lt), scenario.table_dict(Rt)
+        tok = symdata.AbsTok(return_set=True)
+        b = dict(base_bindings())
+        if cfg['order'] == 'identity':
+            for m in ORDER_USERS:
+                b[(m, 'gen_token_ordering_for_tables')] = _identity_ordering
+        if cfg['kernel'] != 'real':
+            stub = KernelStub(c, measure, 'contract', k)      # K-range and K-self only
+            b.update(stub.bindings(KERNEL_USERS))
+        cols = ['id', 'attr', 'x', 'y']
+        largs = (list(Lt.rows), list(Rt.rows), cols, cols, 'id', 'id', 'attr', 'attr')
+        res = {}
+
+        def detail(msg, flt):
+            def mk(mdl):
+                sc = dict(s)
+                sc['filter'] = flt
+                return {'prop': 'C14', 'clause': 'position-subset', 'msg': msg, 'harness': 'h_subset',
+                        'order': cfg['order'], 'kernel': cfg['kernel'], 'other': flt,
+                        'scenario': scenario.concretize_scenario(sc, mdl)}
+            return mk
+        with repo.patched(b):
+            for flt, modname in (('PositionFilter', 'filter.position_filter'),
+                                 ('PrefixFilter', 'filter.prefix_filter'),
+                                 ('SizeFilter', 'filter.size_filter')):
+                sc = dict(s)
+                sc['filter'] = flt
+                try:
+                    f = scenario.make_filter(sc, tok)
+                    out = repo.mod(modname)._filter_tables_split(*largs, f, None, None, 'l_', 'r_', False)
+                except Exception as e:
+                    msg = 'valid call raised %s: %s' % (type(e).__name__, e)
+                    raise Violation(msg, detail(msg, flt))
+                res[flt] = set((r[0], r[1]) for r in oracle.Result.of(out).rows)
+        for flt in ('PrefixFilter', 'SizeFilter'):
+            extra = res['PositionFilter'] - res[flt]
+            if extra:
+                msg = 'PositionFilter.filter_tables keeps %r which %s drops' % (sorted(extra), flt)
+                raise Violation('C14/position-subset: ' + msg, detail(msg, flt))
+        return {'nontrivial': len(res['PositionFilter']) > 0,
+                'tags': ['pos=%d' % len(res['PositionFilter'])], 'sample': None}
 
     return h
